@@ -286,7 +286,11 @@ unsigned int conf_parse_volume(const char *value, int *success)
         total += partial << 20;
         partial = 0;
         break;
+    default:
+        pos--;
+        goto out;
     }
+out:
     if (success)
         *success = (*pos == '\0');
     return total + partial;
